@@ -28,6 +28,7 @@ type aliasTable struct {
 	typeRev  map[string]string
 	fieldFwd map[string]string // canonicalType.actualField -> canonical field name
 	fieldRev map[string]string // canonicalType.canonicalField -> actual field name
+	funcFwd  map[string]string // actual function name -> canonical function name
 	notes    []string
 }
 
@@ -41,7 +42,7 @@ func rawTypeStr(t types.Type) string { return shortenRaw(types.TypeString(t, nil
 
 // BuildAliases compares the loaded program with the reference shapes.
 func (p *Prog) BuildAliases() {
-	at := &aliasTable{typeFwd: map[string]string{}, typeRev: map[string]string{}, fieldFwd: map[string]string{}, fieldRev: map[string]string{}}
+	at := &aliasTable{typeFwd: map[string]string{}, typeRev: map[string]string{}, fieldFwd: map[string]string{}, fieldRev: map[string]string{}, funcFwd: map[string]string{}}
 	curAliases = nil
 	type actual struct {
 		name   string
@@ -176,8 +177,68 @@ func (p *Prog) BuildAliases() {
 			}
 		}
 	}
+	// 3. renamed unexported functions and methods: same owner (package or
+	// receiver type), same signature, old name gone, new name not on the
+	// reference tree
+	curAliases = at // type aliases are needed to render names and signatures
+	actualSig := map[string]string{}
+	for _, fn := range p.ModFuncs {
+		if fn.Parent() != nil || p.IsTestFile(fn.Pos()) || strings.Contains(p.Pos(fn.Pos()), ".pb.go") {
+			continue
+		}
+		n := p.fnNameRaw(fn)
+		if strings.Contains(n, "[") {
+			continue
+		}
+		if _, dup := actualSig[n]; !dup {
+			actualSig[n] = TypeStr(fn.Signature)
+		}
+	}
+	ownerOf := func(n string) string { return n[:strings.LastIndex(n, ".")] }
+	baseOf := func(n string) string { return n[strings.LastIndex(n, ".")+1:] }
+	var goneF, newF []string
+	for n := range refSigs {
+		if _, ok := actualSig[n]; !ok {
+			goneF = append(goneF, n)
+		}
+	}
+	for n := range actualSig {
+		if _, ok := refSigs[n]; !ok {
+			newF = append(newF, n)
+		}
+	}
+	sort.Strings(goneF)
+	sort.Strings(newF)
+	takenF := map[string]bool{}
+	for _, g := range goneF {
+		if b := baseOf(g); b != "" && b[0] >= 'A' && b[0] <= 'Z' {
+			continue // a renamed exported function is an API change, not a rename
+		}
+		var cands []string
+		for _, f := range newF {
+			if !takenF[f] && ownerOf(f) == ownerOf(g) && actualSig[f] == refSigs[g] {
+				if b := baseOf(f); b != "" && b[0] >= 'A' && b[0] <= 'Z' {
+					continue
+				}
+				cands = append(cands, f)
+			}
+		}
+		if len(cands) == 1 {
+			at.funcFwd[cands[0]] = g
+			takenF[cands[0]] = true
+			at.notes = append(at.notes, "function "+cands[0]+" is treated as the renamed "+g)
+		}
+	}
 	sort.Strings(at.notes)
 	curAliases = at
+	// the name table follows the aliases
+	p.byName = map[string]*ssa.Function{}
+	for _, fn := range p.ModFuncs {
+		n := p.FnName(fn)
+		if _, dup := p.byName[n]; !dup {
+			p.byName[n] = fn
+		}
+	}
 }
 
 // AliasNotes lists the renames that were recognised (for the evidence).
